@@ -225,6 +225,204 @@ theorem encode_getLast (key : σ → Nat) (p : Path σ α) :
   simp only [encode, lastState, List.getLast?_map, Option.map_map]
   rfl
 
+/-! ### `reconstruct_path` on a well-formed `generated` map -/
+
+theorem get_cons (e : Nat × Option Nat) (g : Gen) (fp : Nat) :
+    Gen.get (e :: g) fp = if e.1 = fp then some e.2 else Gen.get g fp := by
+  unfold Gen.get
+  by_cases h : e.1 = fp
+  · simp [h]
+  · simp [h]
+
+/-- an entry is what `get` finds for its key -/
+theorem genOK_get {M : Sys σ α} {key : σ → Nat} {gp : List ((Nat × Option Nat) × List σ)}
+    (h : GenOK M key gp) : ∀ fp par path, ((fp, par), path) ∈ gp → Gen.get (gp.map (·.1)) fp = some par := by
+  induction h with
+  | nil => intro _ _ _ hm; cases hm
+  | @root gp s _ _ hnone ih =>
+    intro fp par path hm
+    simp only [List.map_cons, get_cons]
+    rcases List.mem_cons.1 hm with e | hm
+    · injection e with e1 _; injection e1 with e1 e2; subst e1 e2; simp
+    · have := ih fp par path hm
+      have hne : key s ≠ fp := by intro e; rw [e] at hnone; rw [hnone] at this; cases this
+      simp [hne, this]
+  | @child gp par' path' s t _ hin _ _ hnone ih =>
+    intro fp par path hm
+    simp only [List.map_cons, get_cons]
+    rcases List.mem_cons.1 hm with e | hm
+    · injection e with e1 _; injection e1 with e1 e2; subst e1 e2; simp
+    · have := ih fp par path hm
+      have hne : key t ≠ fp := by intro e; rw [e] at hnone; rw [hnone] at this; cases this
+      simp [hne, this]
+
+theorem get_isSome_mem {gp : List ((Nat × Option Nat) × List σ)} {fp : Nat}
+    (h : (Gen.get (gp.map (·.1)) fp).isSome) : ∃ par path, ((fp, par), path) ∈ gp := by
+  unfold Gen.get at h
+  cases hf : (gp.map (·.1)).find? (fun e => e.1 == fp) with
+  | none => rw [hf] at h; cases h
+  | some e =>
+    have hm := List.mem_of_find?_eq_some hf
+    have hk := List.find?_some hf
+    simp only [beq_iff_eq] at hk
+    simp only [List.mem_map] at hm
+    obtain ⟨x, hx, rfl⟩ := hm
+    exact ⟨x.1.2, x.2, by rw [← hk]; exact hx⟩
+
+/-- parents of entries are entries -/
+theorem genOK_closed {M : Sys σ α} {key : σ → Nat} {gp : List ((Nat × Option Nat) × List σ)}
+    (h : GenOK M key gp) : ∀ fp prev, Gen.get (gp.map (·.1)) fp = some (some prev) →
+      (Gen.get (gp.map (·.1)) prev).isSome := by
+  induction h with
+  | nil => intro _ _ hm; simp [Gen.get] at hm
+  | @root gp s hok _ hnone ih =>
+    intro fp prev hg
+    simp only [List.map_cons, get_cons] at hg ⊢
+    by_cases h1 : key s = fp
+    · simp [h1] at hg
+    · simp only [h1, if_false] at hg
+      have := ih fp prev hg
+      by_cases h2 : key s = prev
+      · simp [h2]
+      · simp [h2, this]
+  | @child gp par' path' s t hok hin _ _ hnone ih =>
+    intro fp prev hg
+    simp only [List.map_cons, get_cons] at hg ⊢
+    have hs := genOK_get hok _ _ _ hin
+    by_cases h1 : key t = fp
+    · simp only [h1, if_true, Option.some.injEq] at hg
+      subst hg
+      by_cases h2 : key t = key s
+      · simp [h2]
+      · simp [h2, hs]
+    · simp only [h1, if_false] at hg
+      have := ih fp prev hg
+      by_cases h2 : key t = prev
+      · simp [h2]
+      · simp [h2, this]
+
+/-- a walk that starts inside the old map never sees the new entry -/
+theorem walkBack_frame (e : Nat × Option Nat) (g : Gen)
+    (hclosed : ∀ fp prev, Gen.get g fp = some (some prev) → (Gen.get g prev).isSome)
+    (hnew : Gen.get g e.1 = none) :
+    ∀ fuel fp acc, (Gen.get g fp).isSome → walkBack (e :: g) fuel fp acc = walkBack g fuel fp acc := by
+  intro fuel
+  induction fuel with
+  | zero => intro _ _ _; rfl
+  | succ n ih =>
+    intro fp acc hs
+    have hne : e.1 ≠ fp := by intro h; rw [h] at hnew; rw [hnew] at hs; cases hs
+    simp only [walkBack, get_cons, hne, if_false]
+    cases hg : Gen.get g fp with
+    | none => rfl
+    | some par =>
+      cases par with
+      | none => rfl
+      | some prev => exact ih prev (fp :: acc) (hclosed fp prev hg)
+
+/-- `walkBack` with enough fuel returns the fingerprints of the entry's path -/
+theorem genOK_walk {M : Sys σ α} {key : σ → Nat} {gp : List ((Nat × Option Nat) × List σ)}
+    (h : GenOK M key gp) : ∀ fp par path, ((fp, par), path) ∈ gp → ∀ fuel acc, gp.length ≤ fuel →
+      walkBack (gp.map (·.1)) fuel fp acc = path.map key ++ acc := by
+  induction h with
+  | nil => intro _ _ _ hm; cases hm
+  | @root gp s hok _ hnone ih =>
+    intro fp par path hm fuel acc hf
+    simp only [List.length_cons] at hf
+    rcases List.mem_cons.1 hm with e | hm
+    · injection e with e1 e2; injection e1 with e1 e3; subst e1 e2 e3
+      cases fuel with
+      | zero => omega
+      | succ n => simp [walkBack, get_cons]
+    · simp only [List.map_cons]
+      rw [walkBack_frame _ _ (genOK_closed hok) hnone]
+      · exact ih fp par path hm fuel acc (by omega)
+      · rw [genOK_get hok _ _ _ hm]; rfl
+  | @child gp par' path' s t hok hin hlast hsucc hnone ih =>
+    intro fp par path hm fuel acc hf
+    simp only [List.length_cons] at hf
+    rcases List.mem_cons.1 hm with e | hm
+    · injection e with e1 e2; injection e1 with e1 e3; subst e1 e2 e3
+      cases fuel with
+      | zero => omega
+      | succ n =>
+        simp only [List.map_cons, walkBack, get_cons, if_true]
+        rw [walkBack_frame _ _ (genOK_closed hok) hnone]
+        · rw [ih _ _ _ hin n _ (by omega)]; simp
+        · rw [genOK_get hok _ _ _ hin]; rfl
+    · simp only [List.map_cons]
+      rw [walkBack_frame _ _ (genOK_closed hok) hnone]
+      · exact ih fp par path hm fuel acc (by omega)
+      · rw [genOK_get hok _ _ _ hm]; rfl
+
+
+theorem fp_roundtrip (M : Sys σ α) (key : σ → Nat) (inj : ∀ x y, key x = key y → x = y)
+    (p : Path σ α) (h : IsExec M p) :
+    ∃ p', fromFingerprints M key (encode key p) = some p' ∧ intoStates p' = intoStates p ∧
+      IsExec M p' ∧ encode key p' = encode key p := by
+  obtain ⟨s, hs, he⟩ := h
+  obtain ⟨p', hp', hst, he'⟩ := fromFpsAux_complete (key := key) inj he
+  have hk := encode_execFrom key he
+  have : fromFingerprints M key (encode key p) = some p' := by
+    rw [hk]; simp only [fromFingerprints, find_init_of_inj inj hs]; exact hp'
+  exact ⟨p', this, hst, ⟨s, hs, he'⟩, (fromFingerprints_sound M key _ p' this).2⟩
+
+theorem exec_snoc {M : Sys σ α} {s0 s t : σ} {a : α} {p : Path σ α} (h : ExecFrom M s0 p)
+    (hl : lastState p = some s) (ha : a ∈ M.acts s) (hn : M.next s a = some t) :
+    ∃ p', ExecFrom M s0 p' ∧ intoStates p' = intoStates p ++ [t] := by
+  induction h with
+  | last s0 =>
+    simp [lastState] at hl
+    subst hl
+    exact ⟨[(s0, some a), (t, none)], .step ha hn (.last t), rfl⟩
+  | @step s0 t0 a0 rest ha0 hn0 he ih =>
+    obtain ⟨x, r, hr⟩ := execFrom_ne_nil he
+    rw [hr, lastState_cons_cons, ← hr] at hl
+    obtain ⟨rest', he', hs'⟩ := ih hl
+    exact ⟨(s0, some a0) :: rest', .step ha0 hn0 he', by simp [intoStates] at hs' ⊢; exact hs'⟩
+
+theorem lastState_eq_getLast (p : Path σ α) : lastState p = (intoStates p).getLast? := by
+  simp [lastState, intoStates, List.getLast?_map]
+
+/-- every path recorded with a `generated` entry is the state sequence of an execution -/
+theorem genOK_exec {M : Sys σ α} {key : σ → Nat} {gp : List ((Nat × Option Nat) × List σ)}
+    (h : GenOK M key gp) : ∀ fp par path, ((fp, par), path) ∈ gp →
+      ∃ p, IsExec M p ∧ intoStates p = path ∧ (∃ s, path.getLast? = some s ∧ key s = fp) := by
+  induction h with
+  | nil => intro _ _ _ hm; cases hm
+  | @root gp s _ hinit _ ih =>
+    intro fp par path hm
+    rcases List.mem_cons.1 hm with e | hm
+    · injection e with e1 e2; injection e1 with e1 _; subst e1 e2
+      exact ⟨[(s, none)], ⟨s, hinit, .last s⟩, rfl, s, rfl, rfl⟩
+    · exact ih fp par path hm
+  | @child gp par' path' s t _ hin hlast hsucc _ ih =>
+    intro fp par path hm
+    rcases List.mem_cons.1 hm with e | hm
+    · injection e with e1 e2; injection e1 with e1 _; subst e1 e2
+      obtain ⟨p, ⟨s0, hs0, he⟩, hst, _⟩ := ih _ _ _ hin
+      simp only [Sys.succAll, List.mem_filterMap] at hsucc
+      obtain ⟨a, ha, hn⟩ := hsucc
+      have hl : lastState p = some s := by rw [lastState_eq_getLast, hst]; exact hlast
+      obtain ⟨p', he', hs'⟩ := exec_snoc he hl ha hn
+      exact ⟨p', ⟨s0, hs0, he'⟩, by rw [hs', hst], t, by simp, rfl⟩
+    · exact ih fp par path hm
+
+/-- `reconstruct_path` on a well-formed `generated` map never panics and yields the entry's path -/
+theorem genOK_reconstruct {M : Sys σ α} {key : σ → Nat} (inj : ∀ x y, key x = key y → x = y)
+    {gp : List ((Nat × Option Nat) × List σ)} (h : GenOK M key gp)
+    {fp : Nat} {par : Option Nat} {path : List σ} (hm : ((fp, par), path) ∈ gp) :
+    ∃ p, reconstructPath M key (gp.map (·.1)) fp = some p ∧ intoStates p = path ∧ IsExec M p ∧
+      encode key p = path.map key := by
+  obtain ⟨p0, hex, hst, _⟩ := genOK_exec h fp par path hm
+  have hw := genOK_walk h fp par path hm ((gp.map (·.1)).length + 1) [] (by simp)
+  have henc : encode key p0 = path.map key := by rw [← hst]; simp [encode, intoStates]
+  obtain ⟨p', hp', hst', hex', henc'⟩ := fp_roundtrip M key inj p0 hex
+  refine ⟨p', ?_, by rw [hst', hst], hex', by rw [henc', henc]⟩
+  unfold reconstructPath
+  rw [hw, List.append_nil, ← henc]; exact hp'
+
+
 /-! ### decimal encoding of fingerprint paths and the url parser -/
 
 theorem digit_of_mem {n : Nat} {c : Char} (h : c ∈ Nat.toDigits 10 n) : ('0' ≤ c && c ≤ '9') = true := by
